@@ -1,10 +1,10 @@
 SPECIFICATION SpecC16
 CONSTANTS
   Instr = {"i0", "i3"}
-  Asset = {"a0"}
+  Asset = {"a0", "a5"}
   PnLs <- PnLsQuick
   Costs = {10}
-  Bals = {5}
+  Bals = {5, 7}
   Vals = {}
   MaxClosed = 5
   MaxBal = 1
